@@ -3,6 +3,7 @@
 use crate::acts::*;
 use mwsim::sim::*;
 use mwsim::world::*;
+use staking::msg::ExecuteMsg;
 
 #[derive(Clone, Copy, Debug, PartialEq)]
 pub enum Rel {
@@ -49,6 +50,8 @@ pub struct MenuOpt {
     pub recover_forced: bool,
     /// forced recovery also for the other (receiver, denom) groups, with non-adjacent repeats
     pub recover_forced_groups: bool,
+    /// offer SubmitBatch / Withdraw / plain recovery also with a staked-asset coin attached
+    pub funded_variants: bool,
     /// the transfer module answers the next transfer with no reply data / undecodable data (deviation)
     pub reply_faults: bool,
     pub fee_withdraw: Vec<Rel>,
@@ -87,6 +90,7 @@ impl MenuOpt {
             recover_receivers: vec![],
             recover_forced: false,
             recover_forced_groups: false,
+            funded_variants: false,
             reply_faults: false,
             fee_withdraw: vec![Rel::Exact],
             halt_resume: false,
@@ -362,6 +366,22 @@ pub fn std_menu(s: &Sim, o: &MenuOpt) -> Vec<Act> {
         } else {
             a.push(Act::IbcUp { up: true });
         }
+    }
+    if o.funded_variants {
+        // a message delivered through ibc-hooks always arrives with the transferred coin attached, and any
+        // caller may attach coins: the messages that take no payment are also offered with one staked-asset
+        // unit in their funds
+        let sdn2 = sd();
+        let mut extra = vec![];
+        for x in &a {
+            if let Act::Exec { sender, msg, funds, hold } = x {
+                let plain = matches!(msg, ExecuteMsg::SubmitBatch {} | ExecuteMsg::Withdraw { .. }) || matches!(msg, ExecuteMsg::RecoverPendingIbcTransfers { selected_packets: None, .. });
+                if plain && funds.is_empty() && s.w.bal(sender, &sdn2) >= 1 {
+                    extra.push(Act::Exec { sender: sender.clone(), msg: msg.clone(), funds: vec![(sdn2.clone(), 1)], hold: *hold });
+                }
+            }
+        }
+        a.extend(extra);
     }
     a
 }
